@@ -55,7 +55,7 @@ inductive C where
   | paren (l : Span) (body : C) (r : Span)
   | comma (a : C) (c : Span) (b : C)
   | app (f a : C)
-  | infix (l : C) (o : String) (os : Span) (r : C)
+  | binop (l : C) (o : String) (os : Span) (r : C)
   | lam (bs : Span) (args : List Arg) (ar : Span) (body : C)
   | ite (i : Span) (c : C) (t : Span) (a : C) (e : Span) (b : C)
   | letIn (l : Span) (x : Arg) (args : List Arg) (q : Span) (rhs : C) (n : Span) (body : C)
@@ -81,7 +81,7 @@ def toks : C → List Tok
   | .paren l b r => ⟨.lp, l⟩ :: (toks b ++ [⟨.rp, r⟩])
   | .comma a c b => toks a ++ ⟨.comma, c⟩ :: toks b
   | .app f a => toks f ++ toks a
-  | .infix l o os r => toks l ++ ⟨.op o, os⟩ :: toks r
+  | .binop l o os r => toks l ++ ⟨.op o, os⟩ :: toks r
   | .lam bs args ar body =>
     ⟨.lam, bs⟩ :: (argToks args ++ ⟨.arrow, ar⟩ :: ⟨.ob, dummy⟩ :: (toks body ++ [⟨.cb, dummy⟩]))
   | .ite i c t a e b =>
@@ -103,7 +103,7 @@ def span : C → Span
   | .paren l _ r => ⟨l.s, r.e⟩
   | .comma a _ b => ⟨(span a).s, (span b).e⟩        -- (no node of its own in the real tree)
   | .app f a => ⟨(span f).s, (span a).e⟩
-  | .infix l _ _ r => ⟨(span l).s, (span r).e⟩
+  | .binop l _ _ r => ⟨(span l).s, (span r).e⟩
   | .lam bs _ _ body => ⟨bs.s, (span body).e⟩
   | .ite i _ _ _ _ b => ⟨i.s, (span b).e⟩
   | .letIn l _ _ _ _ _ body => ⟨l.s, (span body).e⟩
@@ -176,7 +176,7 @@ def pInfix : Nat → List Tok → Option (C × List Tok)
     match pApp f ts with
     | some (l, ⟨.op o, os⟩ :: r) =>
       match pInfix f r with
-      | some (rhs, r') => some (.infix l o os rhs, r')
+      | some (rhs, r') => some (.binop l o os rhs, r')
       | none => none
     | res => res
 /-- `Expr` (with `SpExpr`'s flattening of singleton blocks) -/
@@ -221,7 +221,7 @@ def parseTop (fuel : Nat) (ts : List Tok) : Option C :=
 def lvl : C → Nat
   | .ident .. | .int .. | .str .. | .unit .. | .paren .. => 0
   | .app .. => 1
-  | .infix .. | .lam .. => 2
+  | .binop .. | .lam .. => 2
   | .ite .. | .letIn .. => 3
   | .comma .. => 4
 
@@ -229,7 +229,7 @@ def lvl : C → Nat
     where the following token (`then`) does not close blocks. -/
 def closedEnd : C → Bool
   | .ident .. | .int .. | .str .. | .unit .. | .paren .. | .app .. => true
-  | .infix _ _ _ r => closedEnd r
+  | .binop _ _ _ r => closedEnd r
   | _ => false
 
 /-- Legal trees: every sub-expression sits at a position the grammar allows for its level —
@@ -239,7 +239,7 @@ def Legal : C → Prop
   | .paren _ b _ => Legal b
   | .comma a _ b => Legal a ∧ Legal b ∧ lvl a ≤ 3
   | .app f a => Legal f ∧ Legal a ∧ lvl f ≤ 1 ∧ lvl a = 0
-  | .infix l _ _ r => Legal l ∧ Legal r ∧ lvl l ≤ 1 ∧ lvl r ≤ 2
+  | .binop l _ _ r => Legal l ∧ Legal r ∧ lvl l ≤ 1 ∧ lvl r ≤ 2
   | .lam _ args _ body => Legal body ∧ args ≠ [] ∧ lvl body ≤ 3
   | .ite _ c _ a _ b =>
     Legal c ∧ Legal a ∧ Legal b ∧ lvl c ≤ 3 ∧ lvl a ≤ 3 ∧ lvl b ≤ 3 ∧ closedEnd c = true
@@ -252,7 +252,7 @@ instance decLegal : (c : C) → Decidable (Legal c)
     unfold Legal; have := decLegal a; have := decLegal b; infer_instance
   | .app f a => by
     unfold Legal; have := decLegal f; have := decLegal a; infer_instance
-  | .infix l _ _ r => by
+  | .binop l _ _ r => by
     unfold Legal; have := decLegal l; have := decLegal r; infer_instance
   | .lam _ _ _ body => by
     unfold Legal; have := decLegal body; infer_instance
@@ -267,7 +267,7 @@ def size : C → Nat
   | .paren _ b _ => size b + 1
   | .comma a _ b => size a + size b + 1
   | .app f a => size f + size a + 1
-  | .infix l _ _ r => size l + size r + 1
+  | .binop l _ _ r => size l + size r + 1
   | .lam _ _ _ body => size body + 1
   | .ite _ c _ a _ b => size c + size a + size b + 1
   | .letIn _ _ _ _ rhs _ body => size rhs + size body + 1
@@ -287,7 +287,7 @@ inductive E where
   | tuple (body : E)            -- body = right-nested `comma`
   | comma (a b : E)
   | app (f a : E)
-  | infix (l : E) (o : String) (r : E)
+  | binop (l : E) (o : String) (r : E)
   | lam (args : List String) (body : E)
   | ite (c a b : E)
   | letIn (x : String) (args : List String) (rhs body : E)
@@ -306,7 +306,7 @@ def erase : C → E
   | .paren _ b _ => if isComma b then .tuple (erase b) else erase b
   | .comma a _ b => .comma (erase a) (erase b)
   | .app f a => .app (erase f) (erase a)
-  | .infix l o _ r => .infix (erase l) o (erase r)
+  | .binop l o _ r => .binop (erase l) o (erase r)
   | .lam _ args _ body => .lam (args.map (·.1)) (erase body)
   | .ite _ c _ a _ b => .ite (erase c) (erase a) (erase b)
   | .letIn _ x args _ rhs _ body => .letIn x.1 (args.map (·.1)) (erase rhs) (erase body)
